@@ -98,6 +98,17 @@ impl<const TOTAL_NUM_BITS: u32, const NUM_INDEX_BITS: u32>
     }
 }
 
+/// Read-only observation point for the external verification harness (cargo feature `verif-hooks`)
+#[cfg(feature = "verif-hooks")]
+impl<const TOTAL_NUM_BITS: u32, const NUM_INDEX_BITS: u32>
+    PhaseAccumulator<TOTAL_NUM_BITS, NUM_INDEX_BITS>
+{
+    /// `pa.verif_accumulator()` is the raw accumulator value
+    pub fn verif_accumulator(&self) -> u32 {
+        self.accumulator
+    }
+}
+
 #[cfg(test)]
 mod tests {
     use super::*;
